@@ -103,8 +103,8 @@ DocsProj == {O2(cA, x, cB, y) : x \in (IF Thorough THEN PM ELSE PMQ), y \in (IF 
                   O2(cA, A2(I(1), I(2)), cB, A1(I(3))), A2(O1(cA, A2(I(1), I(2))), O1(cA, A1(I(3))))}
 
 (* ---------------- C07: truthiness, logical operators, comparators ------------------------- *)
-V7 == IF Thorough THEN Scal \cup LookAlikes \cup {A2(I(1), I(2)), A2(I(2), I(1)), O1(cA, I(1)), O1(cA, S(<<49>>)), O2(cA, I(1), cB, I(2)), O1(cB, I(1)), A1(O0)}
-      ELSE ScalCore \cup {I(2), Half, S(cB), S(<<49>>), S(<<48>>), S(<<116, 114, 117, 101>>), A0, O0, A1(I(1)), A1(S(<<49>>)), A1(Null), A2(I(1), I(2)), O1(cA, I(1)), O1(cA, S(<<49>>))}
+V7 == IF Thorough THEN Scal \cup LookAlikes \cup {O1(cA, Null), O1(cB, Null), O2(cA, Null, cB, I(1)), O2(cA, I(1), cC, Null), BigV(1), BigV(2), A2(I(1), I(2)), A2(I(2), I(1)), O1(cA, I(1)), O1(cA, S(<<49>>)), O2(cA, I(1), cB, I(2)), O1(cB, I(1)), A1(O0)}
+      ELSE ScalCore \cup {I(2), Half, S(cB), S(<<49>>), S(<<48>>), S(<<116, 114, 117, 101>>), A0, O0, A1(I(1)), A1(S(<<49>>)), A1(Null), A2(I(1), I(2)), O1(cA, I(1)), O1(cA, S(<<49>>)), O1(cA, Null), O1(cB, Null), O2(cA, Null, cB, I(1)), O2(cB, I(1), cC, Null), BigV(1)}
 V7Seq == SetToSeq(V7)
 CmpSeq == <<"eq", "ne", "lt", "lte", "gt", "gte">>
 OpL1 == SetToSeq({Lit(v) : v \in V7} \cup {ErrAbs})
@@ -138,7 +138,7 @@ Strs3ab == {S(<<>>)} \cup {S(<<c>>) : c \in {97, 98}} \cup {S(<<c, d>>) : c \in 
            \cup {S(<<c, d, e>>) : c \in {97, 98}, d \in {97, 98}, e \in {97, 98}}
 ObjElems == {O2(cA, I(1), cB, S(<<120>>)), O2(cA, I(1), cB, S(<<121>>)), O2(cA, I(0), cB, S(<<122>>)), O1(cA, S(<<115>>)), O1(cB, I(1))}
 FnObjs == {O0, O1(cA, I(1)), O2(cA, I(1), cB, I(2)), O1(cB, I(3)), O2(cA, S(<<120>>), cC, Null), O1(cA, O1(cA, I(1)))}
-FnMixed == {A2(I(1), S(cA)), A1(Null), A2(A1(I(1)), A1(I(2))), A1(Bool(TRUE)), A2(A1(I(1)), I(1)), A2(O0, O0), A3(I(2), I(10), I(1)), A3(S(<<49, 48>>), S(<<57>>), S(<<65>>))}
+FnMixed == {BigV(1), BigV(2), BigV(3), A2(BigV(1), I(1)), A2(I(2), BigV(2)), A2(I(1), S(cA)), A1(Null), A2(A1(I(1)), A1(I(2))), A1(Bool(TRUE)), A2(A1(I(1)), I(1)), A2(O0, O0), A3(I(2), I(10), I(1)), A3(S(<<49, 48>>), S(<<57>>), S(<<65>>))}
 FnNumStrs == {S(<<49>>), S(<<45, 49>>), S(<<49, 46, 53>>), S(<<48, 46, 50, 53>>), S(<<49, 50>>), S(<<48>>), S(<<45, 48, 46, 53>>),
               S(<<43, 49>>), S(<<46, 53>>), S(<<48, 49>>), S(<<49, 95, 48>>), S(<<49, 101, 50>>), S(<<32, 49>>), S(<<49, 32>>),
               S(<<105, 110, 102>>), S(<<110, 97, 110>>), S(<<73, 110, 102, 105, 110, 105, 116, 121>>), S(<<45, 105, 110, 102>>),
@@ -274,7 +274,7 @@ CtxWrap(s, x, k) ==
     [] s = 36 -> Pipe(Pipe(fA, x), fA)
     [] s = 37 -> MSH(<<KV(cA, fA), KV(cB, x)>>)
     [] s = 38 -> C2("min_by", fB, Ref(x))
-DocsCtx == {O2(cA, x, cB, y) : x \in {Null, I(1), O1(cA, I(1)), O0, A1(I(1))}, y \in {A0, A2(I(1), I(2)), A2(O1(cA, I(1)), O1(cA, I(2))), Null, O1(cA, I(1)), A2(S(cA), I(1))}}
+DocsCtx == {O2(cA, x, cB, y) : x \in {Null, I(1), O1(cA, I(1)), O0, A1(I(1))}, y \in {A0, A2(I(1), I(2)), A2(O1(cA, I(1)), O1(cA, I(2))), Null, O1(cA, I(1)), A2(S(cA), I(1)), A1(O1(cA, I(1))), A1(I(3))}}
            \cup {A2(I(2), I(1)), A2(I(1), S(cA)), A0, Null, O0}
 
 (* ---------------- C16: results are JSON (numbers, empties) -------------------------------- *)
@@ -346,8 +346,8 @@ MetaWrap(s, x, k) ==
 
 (* ---------------- C18: typed Go documents ------------------------------------------------------ *)
 fD == Field(<<100>>)  fEe == Field(<<101>>)  fF == Field(<<102>>)  fG == Field(<<103>>)  fH == Field(<<104>>)
-fCapA == Field(<<65>>)  fCapC == Field(<<67>>)
-NavL1 == SetToSeq({fA, fB, fC, fD, fEe, fF, fG, fH, fCapA, Field(<<122>>), Current,
+fCapA == Field(<<65>>)  fCapC == Field(<<67>>)  fEl == Field(<<233, 108>>)  fCapEl == Field(<<201, 108>>)
+NavL1 == SetToSeq({fA, fB, fC, fD, fEe, fF, fG, fH, fCapA, Field(<<122>>), Current, fE, fEl, fCapEl, Sub(fA, fEl), Sub(fB, fE), Proj(fC, fEl), Proj(fD, fE),
    Sub(fA, fA), Sub(fA, fB), Sub(fA, fC), Sub(fB, fA), Sub(fB, fC), Sub(fCapA, fCapA), Sub(fB, Field(<<122>>)),
    IdxL(fC, 0), IdxL(fC, -1), IdxL(fC, 5), IdxL(fD, 0), IdxL(fD, 1), IdxL(fEe, 0), IdxL(fF, -1), IdxI(0), IdxI(1), IdxL(Sub(fA, fC), 0),
    Sub(IdxL(fC, 0), fA), Sub(IdxL(fD, 0), fB), Sub(IdxL(fD, 1), fA),
